@@ -41,6 +41,11 @@ def c20(ctx):
              "else in cli/ prints")
     rep.rule("C20.R3", "exit status: run() maps Ok to 0 and Err to 1 and main exits with it; in cli() the clap result and the io::Result of "
              "reading the file are propagated with `?` (ERRFLOW over src/cli and lib.rs)")
+    rep.rule("C20.R4", "diagnostic rendering: the text cli::linter::colorized builds for one library diagnostic depends on all three of its "
+             "fields (line, issue, suggestions), and a line break that does not depend on the suggestions terminates it (a string "
+             "constant ending in \\n that reaches the result from the function's own body, not from the per-suggestion closure): a "
+             "diagnostic without suggestions still ends its line")
+    render_rule(ctx, "C20.R4")
     # ---- R1
     want_chain = {
         "cli::exec::run": {"cli::parser::parse", "exec::exec"},
@@ -229,3 +234,46 @@ def c20(ctx):
         gm = [(bi, t) for bi, t in cli.calls() if t["callee"].get("name") in ("try_get_matches_from", "try_get_matches")]
         ok = len(gm) == 1 and any(flows_into(cli, gm[0][0], tt["args"][0]) for tb, tt in tries)
         rep.ob("C20.R3", "usage-errors-propagated", ok, "" if ok else "the clap result is not propagated with `?` (bad usage would exit 0)", cli.loc(), how="try_get_matches_from(args)?")
+
+
+
+def render_rule(ctx, rule):
+    F, rep = ctx.F, ctx.rep
+    from ..flow import Labels
+    from ..core import place_fields
+    fn = F.fn("cli::linter::colorized")
+    if fn is None:
+        rep.fail(rule, "anchor", "cli::linter::colorized not found")
+        return
+    rep.analysed(fn)
+    DIAG = "linter::Diag"
+    # forward labels: which fields of the diagnostic reach the return value
+    def ext(label, pl):
+        fs = [name for of, name, _ in place_fields(pl) if of == DIAG]
+        return label + tuple(fs[:1]) if fs and len(label) == 1 else label
+    lab = Labels(F, fn, {(fn.path, 1): {("diag",)}}, extend=ext)
+    ret = lab.lab.get((fn.path, 0), set())
+    got = {l[1] for l in ret if len(l) == 2}
+    # fields read inside closures reach the result through the closure's own return; collect them too
+    for body in F.with_closures(fn):
+        if body.path != fn.path:
+            got |= {l[1] for l in lab.lab.get((body.path, 0), set()) if len(l) == 2}
+    for f in ("line", "issue", "suggestions"):
+        ok = f in got
+        rep.ob(rule, "render::uses::" + f, ok, "" if ok else "the rendered text of a diagnostic does not depend on its `%s`" % f, fn.loc(), how="flows into the result")
+    # the terminator: a constant ending in a line break, in the function's own body, flowing into the result
+    term = False
+    for bi, si, st in fn.assigns():
+        use = st["rv"].get("use")
+        cst = use.get("const") if isinstance(use, dict) else None
+        sval = cst.get("str") if isinstance(cst, dict) else None
+        if sval is None and isinstance(cst, dict) and isinstance(cst.get("v"), str):
+            v = cst["v"]
+            if v.startswith("b\"") and v.rstrip('"').endswith("\\n\\x00"):
+                sval = "\n"
+        if sval is not None and sval.endswith("\n"):
+            l2 = Labels(F, fn, {(fn.path, st["pl"]["l"]): {"nl"}})
+            if "nl" in l2.lab.get((fn.path, 0), set()):
+                term = True
+    rep.ob(rule, "render::own-terminator", term, "" if term else "no line break of the function's own reaches the rendered text: a diagnostic without suggestions is not terminated and runs into the next one", fn.loc(),
+           how="constant ending in \\n flows from the body into the result")
